@@ -36,8 +36,10 @@ func init() {
 				Quick: tierCfg{Params: map[string]int{"intervals": 2}}, Thorough: tierCfg{Params: map[string]int{"intervals": 3}}},
 			{Pkg: "mysql/gtids", Entry: "H_C13_diff", Witnesses: []string{"C13.diff.equal", "C13.diff.source-ahead", "C13.diff.split", "C13.diff.replica-ahead"},
 				Quick: tierCfg{Params: map[string]int{"uuids": 2, "tags": 1, "intervals": 1}}, Thorough: tierCfg{Params: map[string]int{"uuids": 2, "tags": 1, "intervals": 2}}},
+			{Pkg: "app", Entry: "H_C13_most_recent", Witnesses: []string{"C13.recent.split", "C13.recent.max"},
+				Quick: tierCfg{Params: map[string]int{"max_n": 3, "gtid_bits": 3}}, Thorough: tierCfg{Params: map[string]int{"max_n": 5, "gtid_bits": 4}}},
 		},
-		Encoded: []string{"mysql/gtids.IsSlaveBehindOrEqual", "mysql/gtids.IsSlaveAhead", "mysql/gtids.IsSplitBrained", "mysql/gtids.intervalSliceMinus",
+		Encoded: []string{"app.findMostRecentNodeAndDetectSplitbrain", "app.detectSplitbrain", "mysql/gtids.IsSlaveBehindOrEqual", "mysql/gtids.IsSlaveAhead", "mysql/gtids.IsSplitBrained", "mysql/gtids.intervalSliceMinus",
 			"mysql/gtids.mysqlGTIDSetMinus", "mysql/gtids.GTIDDiff"},
 		Assumptions: []string{
 			"GTID sets satisfy R (what ParseMysqlGTIDSet/Normalize guarantee): present UUID has >=1 tag, tag has >=1 interval, intervals sorted, 1<=Start<Stop<=2^62, Start[i+1]>Stop[i]",
@@ -45,5 +47,26 @@ func init() {
 			"map iteration in insertion order (one order)",
 		},
 		Outside: []string{"text parsing/printing of GTID sets", "sets violating R", "more UUIDs/tags/intervals than the stated bounds"},
+	})
+	c14rec := map[string]int{modPath + "/internal/app.getMostDesirableNode": 7}
+	reg(&property{
+		ID:      "C14",
+		NoInstr: true,
+		Obligations: []obligation{
+			{Pkg: "app", Entry: "H_C14_choice", Witnesses: []string{"C14.empty", "C14.choice.multi"}, RecursionLimits: c14rec, Solver: "cvc5",
+				Quick: tierCfg{Params: map[string]int{"max_n": 3, "gtid_bits": 3}}, Thorough: tierCfg{Params: map[string]int{"max_n": 4, "gtid_bits": 3}}},
+			{Pkg: "app", Entry: "H_C14_from_filter", Witnesses: []string{"C14.filter.chosen", "C14.filter.none"}, RecursionLimits: c14rec, Solver: "cvc5",
+				Quick: tierCfg{Params: map[string]int{"max_n": 3}}, Thorough: tierCfg{Params: map[string]int{"max_n": 4}}},
+			{Pkg: "app", Entry: "H_C14_vs_most_recent", Witnesses: []string{"C14.mr.agree", "C14.mr.split"}, RecursionLimits: c14rec, Solver: "cvc5",
+				Quick: tierCfg{Params: map[string]int{"max_n": 3, "gtid_bits": 3}}, Thorough: tierCfg{Params: map[string]int{"max_n": 4, "gtid_bits": 3}}},
+		},
+		Encoded: []string{"app.getMostDesirableNode", "app.getMostPriorityNode", "app.filterOutNodeFromPositions", "app.findMostRecentNodeAndDetectSplitbrain"},
+		Assumptions: []string{
+			"lags are arbitrary non-NaN float64 (incl. ±Inf and 99999999); priorities arbitrary int64; GTID sets are bit-sets (all inclusion patterns over <=3 transactions)",
+			"the lag bound is a non-negative time.Duration; Duration.Seconds() is modelled as an arbitrary finite float of the same sign, zero iff the duration is zero",
+			"termination: more than n+1<=7 simultaneous activations of getMostDesirableNode on a feasible path is reported as a violation",
+			"zerolog calls are empty stubs",
+		},
+		Outside: []string{"NaN lags", "more than 4 candidates", "negative lag bound"},
 	})
 }
